@@ -27,7 +27,7 @@ RULES = [
  (r"quic\.rs::quic_frames_thread::unwrap", "G is_err()/is_none() are tested first"),
  (r"quic\.rs::quic_frames_thread::remove", "L CHashMap::remove does not panic"),
  (r"h11c\.rs::h11c_connect::unwrap", "I extra(udp-bind-source) is set together with Feature::UdpBind in h11c_handshake, the only place that sets that feature"),
- (r"h11c\.rs::h11c_handshake::unwrap", "I the listener installs the client stream before calling the handshake"),
+ (r"h11c\.rs::h11c_handshake(_request)?::unwrap", "I the listener installs the client stream before calling the handshake"),
  (r"h11c\.rs::on_connect::unwrap", "I the client stream is still owned by the context at on_connect (copy_bidi takes it later)"),
  (r"h11c\.rs::on_error::unwrap", "G socket.is_none() returns first"),
  (r"http\.rs::read_from::index", "G a.len() == 3 is tested first (Http.read_http_request / read_http_response)"),
